@@ -52,6 +52,7 @@ class Run:
         self.ctx = ctx
         self.rng = ctx.rng
         self.classes = C.discover()
+        self.byname = dict(self.classes)
         self.cases = {"construct": [], "to_dict": [], "to_url": [], "from_url": []}
         self.culprits = {}
         self.cells = 0
@@ -310,6 +311,59 @@ class Run:
                 self.ctx.notes.append("witness of known finding %s no longer fails (%s %s via %s)" % (sig, cname, key, fmt))
                 self.ctx.count("witness-no-longer-fails:" + sig)
 
+    # ---- cross-class independence: a class's wire form must not depend on what other classes did
+    def cross_class(self):
+        """Parameter names that resolve differently in different classes (str here, [str] there, an
+        extra elsewhere).  For every such name and every ORDERED pair of classes with different
+        resolutions, both classes form-encode the same language-tagged key (a tag unique to the pair, so
+        each pair starts from a state no class has touched for that key) one after the other in this
+        process.  Oracle: the usual round-trip equality for each cell, and the text a class emits for a
+        key must be the same whether it is the first or the second class to use it."""
+        from urllib.parse import quote_plus
+        ctx = self.ctx
+        res = {}
+        for name, cls in self.classes:
+            if "*" in cls.c_param:
+                continue
+            for k, e in cls.c_param.items():
+                t1 = tier1(e)
+                if t1:
+                    res.setdefault(k, {}).setdefault(t1, name)
+        vals = {"str": "v w&=x", "int": 7, "bool": True, "list": ["p", "q", "r"], "spsep": ["p", "q", "r"],
+                "extra": ["p", "q", "r"], "extra-str": "v w&=x"}
+        seq = 0
+        first_text = {}
+        for n in sorted(res):
+            reps = sorted(res[n].items())
+            lacking = [cn for cn, c in self.classes if n not in c.c_param and "*" not in c.c_param]
+            if lacking and any(k in ("list", "spsep") for k, _ in reps):
+                reps += [("extra", lacking[0]), ("extra-str", lacking[-1])]
+            if len(reps) < 2:
+                continue
+            pairs = [(a, b) for a in reps for b in reps if a[0] != b[0] and not (a[0].startswith("extra") and b[0].startswith("extra"))]
+            for (ra, ca), (rb, cb) in pairs:
+                seq += 1
+                tag = "#x%d" % seq
+                for pos, (r, cname) in enumerate(((ra, ca), (rb, cb))):
+                    cls = self.byname[cname]
+                    kw = dict(C.base_kwargs(cls))
+                    kw[n + tag] = copy.deepcopy(vals[r])
+                    nv0 = len(ctx.violations)
+                    self.cell(cname, cls, kw, n + tag, formats=("urlencoded",))
+                    ctx.count("cross-class:cells")
+                    b = attempt(lambda: cls(**copy.deepcopy(kw)).to_urlencoded())
+                    if b[0] != "ok":
+                        continue
+                    text = b[1].replace(quote_plus(n + tag), quote_plus(n) + "%23TAG")
+                    key = (cname, n, r)
+                    if pos == 0:
+                        first_text.setdefault(key, text)
+                    elif key in first_text and first_text[key] != text and len(ctx.violations) == nv0:
+                        rec = {"class": cname, "kwargs": canon(kw), "key": n + tag, "after_class": ca,
+                               "text_when_first": first_text[key], "text_now": text}
+                        ctx.violation("cross-class:form", "%s form-encodes %s differently after %s used the same key: %r vs %r"
+                                      % (cname, n + tag, ca, text, first_text[key]), rec)
+
     def grid(self):
         ctx, rng = self.ctx, self.rng
         quick = ctx.quick
@@ -333,6 +387,11 @@ class Run:
                     kw = dict(base)
                     kw[k + tag] = v
                     self.cell(name, cls, kw, k + tag)
+            lstp = [k for k, e in params if tier1(e) in LISTK]
+            for k in (rng.sample(lstp, min(2, len(lstp))) if quick else lstp):
+                kw = dict(base)
+                kw[k + "#fr"] = ["un", "deux", "trois"]
+                self.cell(name, cls, kw, k + "#fr")
             extras = [("x_extra", "a b&c=d%#\"'å+"), ("x-ü", "v"), ("x_list", ["p", "q r"]), ("x_int", 5),
                       ("x_bool", True), ("x_one", ["single"]), ("x_dict", {"a": 1, "b": ["c d"]}), ("", "emptykey")]
             for ek, ev in (rng.sample(extras, 3) if quick else extras):
@@ -516,6 +575,7 @@ def run(ctx):
     r = Run(ctx)
     ctx.count("classes", len(r.classes))
     r.witnesses()
+    r.cross_class()
     r.text_layer()
     r.grid()
     r.malformed()
